@@ -320,12 +320,16 @@ void differential(vf::Ctx& c, std::vector<Spec<T>> const& specs, std::vector<hep
     vf::PwcFamily<T> fam = vf::gen_pwc<T>(t, 2, channels, 3);
     std::vector<T> w(channels, T(1) / T(channels));
     if (integrator == 2) { dims = fam.dims; }
+    // a region in which the channel map reports an infinite jacobian: f*w is not finite there, such points
+    // contribute neither to the integral nor to any bin (in the run with distributions and in the separate runs alike)
+    T const poison_above = (integrator == 2 && t.pick(3) == 0) ? static_cast<T>(0.5 + 0.45 * t.unit()) : T(2);
+    if (poison_above < T(2)) { c.label("non-finite-weight-region"); c.desc << " jacobian=inf for x0>" << vf::show(poison_above); }
     fn.dims = dims;
     auto run_dist = [&]() -> hep::plain_result<T> {
         std::mt19937 eng(seed);
         if (integrator == 0) { hep::integrand<T, ProjFn<T>, true> ig(fn, dims, params); return hep::plain_iteration(ig, N, eng); }
         if (integrator == 1) { hep::integrand<T, ProjFn<T>, true> ig(fn, dims, params); return hep::vegas_iteration(ig, N, pdf, eng); }
-        hep::multi_channel_integrand<T, ProjFn<T>, vf::PwcMap<T>, true> ig(fn, dims, vf::PwcMap<T>{&fam, nullptr, nullptr}, fam.map_dims, channels, params);
+        hep::multi_channel_integrand<T, ProjFn<T>, vf::PwcMap<T>, true> ig(fn, dims, vf::PwcMap<T>{&fam, nullptr, nullptr, poison_above}, fam.map_dims, channels, params);
         return hep::multi_channel_iteration(ig, N, w, eng);
     };
     auto run_plain = [&](ProjFn<T> const& g) -> hep::plain_result<T> {
@@ -333,7 +337,7 @@ void differential(vf::Ctx& c, std::vector<Spec<T>> const& specs, std::vector<hep
         std::vector<hep::distribution_parameters<T>> none;
         if (integrator == 0) { hep::integrand<T, ProjFn<T>, false> ig(g, dims, none); return hep::plain_iteration(ig, N, eng); }
         if (integrator == 1) { hep::integrand<T, ProjFn<T>, false> ig(g, dims, none); return hep::vegas_iteration(ig, N, pdf, eng); }
-        hep::multi_channel_integrand<T, ProjFn<T>, vf::PwcMap<T>, false> ig(g, dims, vf::PwcMap<T>{&fam, nullptr, nullptr}, fam.map_dims, channels, none);
+        hep::multi_channel_integrand<T, ProjFn<T>, vf::PwcMap<T>, false> ig(g, dims, vf::PwcMap<T>{&fam, nullptr, nullptr, poison_above}, fam.map_dims, channels, none);
         return hep::multi_channel_iteration(ig, N, w, eng);
     };
     hep::plain_result<T> const full = run_dist();
